@@ -87,6 +87,17 @@ theorem invT_write (p : Prog) (s : Sys) (w n : Nat) (h : InvT p s) : InvT p (ste
     · simp [upd, hww]
   · exact h
 
+theorem invT_wfail (p : Prog) (s : Sys) (w n : Nat) (h : InvT p s) : InvT p (step p s (.wfail w n)) := by
+  simp only [step]
+  split
+  · rename_i t i off hw
+    refine invT_frame p s _ h rfl rfl rfl rfl rfl (by intro k; simp [upd]) ?_
+    intro w'
+    by_cases hww : w' = w
+    · subst hww; simp [hw]
+    · simp [upd, hww]
+  · exact h
+
 theorem invT_close (p : Prog) (s : Sys) (w : Nat) (h : InvT p s) : InvT p (step p s (.close w)) := by
   simp only [step]
   split
@@ -317,6 +328,7 @@ theorem invT_step (p : Prog) (s : Sys) (e : Event) (hi : Inv p s) (h : InvT p s)
   cases e with
   | create w t => exact invT_create p s w t h
   | write w n => exact invT_write p s w n h
+  | wfail w n => exact invT_wfail p s w n h
   | close w => exact invT_close p s w h
   | rename w => exact invT_rename p s w h
   | crash w => exact invT_crash p s w h
